@@ -100,7 +100,52 @@ type ledger struct {
 }
 
 func newLedger(w *World, fn *ssa.Function) *ledger {
+	predWorld = w
 	return &ledger{w: w, fn: fn, keys: map[ssa.Value]string{}}
+}
+
+// predSubst maps the parameters of a predicate function (a small bool function
+// with a single call site, e.g. `isFullURL(s)`) to the arguments of that call:
+// the facts that dominate its non-false return hold, in terms of the
+// arguments, wherever the call is known to have returned true.
+var (
+	predSubst = map[ssa.Value]ssa.Value{}
+	predWorld *World
+)
+
+// importPredicateFacts: the call is known to have returned true.
+func importPredicateFacts(call *ssa.Call, depth int) []edgeFact {
+	w := predWorld
+	g := call.Call.StaticCallee()
+	if w == nil || g == nil || depth > 3 || len(g.Blocks) == 0 || len(g.Blocks) > 24 || !inModule(g) || funcHasLoop(g) {
+		return nil
+	}
+	if g.Signature.Results().Len() != 1 || !isBasicKind(g.Signature.Results().At(0).Type(), types.Bool) {
+		return nil
+	}
+	if len(w.staticCallSites(g)) != 1 || len(g.Params) != len(call.Call.Args) {
+		return nil
+	}
+	var rets []*ssa.Return
+	for _, b := range g.Blocks {
+		if r, ok := b.Instrs[len(b.Instrs)-1].(*ssa.Return); ok && len(r.Results) == 1 {
+			if c, isC := r.Results[0].(*ssa.Const); isC && c.Value != nil && c.Value.Kind() == constant.Bool && !constant.BoolVal(c.Value) {
+				continue
+			}
+			rets = append(rets, r)
+		}
+	}
+	if len(rets) != 1 {
+		return nil
+	}
+	for i, prm := range g.Params {
+		predSubst[prm] = call.Call.Args[i]
+	}
+	out := dominatingFacts(rets[0].Block())
+	if _, isC := rets[0].Results[0].(*ssa.Const); !isC {
+		out = append(out, expandFact(edgeFact{rets[0].Results[0], true}, depth+1)...)
+	}
+	return out
 }
 
 // ---- canonical keys ---------------------------------------------------------
@@ -137,6 +182,9 @@ func pureCallName(c *ssa.Call) string {
 func (lg *ledger) key(v ssa.Value) string {
 	if v == nil {
 		return "<nil>"
+	}
+	if a, ok := predSubst[v]; ok && a != v {
+		return lg.key(a)
 	}
 	if k, ok := lg.keys[v]; ok {
 		return k
@@ -310,6 +358,10 @@ func expandFact(f edgeFact, depth int) []edgeFact {
 			break
 		}
 		cond, truth = u.X, !truth
+	}
+	if call, isCall := cond.(*ssa.Call); isCall && truth {
+		out = append(out, importPredicateFacts(call, depth)...)
+		return out
 	}
 	phi, ok := cond.(*ssa.Phi)
 	if !ok {
@@ -669,6 +721,9 @@ func (lg *ledger) proveStep(p pred, at *ssa.BasicBlock, ctx *proofCtx) (bool, st
 			return true, "this arm of the guard: " + lg.condString(f)
 		}
 	}
+	if why := lg.byCalleeReturns(p, at, ctx); why != "" {
+		return true, why
+	}
 	switch len(at.Preds) {
 	case 0:
 		return false, ""
@@ -689,6 +744,74 @@ func (lg *ledger) proveStep(p pred, at *ssa.BasicBlock, ctx *proofCtx) (bool, st
 		return false, ""
 	}
 	return true, "every feasible incoming edge establishes it (" + strings.Join(dedupe(whys), " | ") + ")"
+}
+
+// byCalleeReturns: the subject is a result of a static call of a module
+// function; the predicate holds if it holds for that result at every return of
+// the callee -- except the returns that a dominating test of another (bool)
+// result of the same call excludes (`v, ok := f(); if ok { use v }`).
+func (lg *ledger) byCalleeReturns(p pred, at *ssa.BasicBlock, ctx *proofCtx) string {
+	switch p.kind {
+	case pValid, pKindIn, pNotNilValue, pIfaceNonNil, pCanInterface, pTypeNonNil:
+	default:
+		return ""
+	}
+	ex, ok := p.v.(*ssa.Extract)
+	if !ok || ctx.depth > 30 {
+		return ""
+	}
+	call, ok := ex.Tuple.(*ssa.Call)
+	if !ok {
+		return ""
+	}
+	g := call.Call.StaticCallee()
+	if g == nil || len(g.Blocks) == 0 || !inModule(g) || g == lg.fn {
+		return ""
+	}
+	// flags known true here
+	flags := map[int]bool{}
+	for _, f := range dominatingFacts(at) {
+		cond, truth := f.cond, f.truth
+		for {
+			u, isNot := cond.(*ssa.UnOp)
+			if !isNot || u.Op != token.NOT {
+				break
+			}
+			cond, truth = u.X, !truth
+		}
+		if fe, isEx := cond.(*ssa.Extract); isEx && fe.Tuple == ex.Tuple && truth {
+			flags[fe.Index] = true
+		}
+	}
+	lgG := newLedger(lg.w, g)
+	n := 0
+	for _, b := range g.Blocks {
+		r, isRet := b.Instrs[len(b.Instrs)-1].(*ssa.Return)
+		if !isRet || ex.Index >= len(r.Results) {
+			continue
+		}
+		excluded := false
+		for j := range flags {
+			if j < len(r.Results) {
+				if c, isC := r.Results[j].(*ssa.Const); isC && c.Value != nil && c.Value.Kind() == constant.Bool && !constant.BoolVal(c.Value) {
+					excluded = true
+				}
+			}
+		}
+		if excluded {
+			continue
+		}
+		n++
+		q := p
+		q.v = r.Results[ex.Index]
+		if okq, _ := lgG.prove(q, b); !okq {
+			return ""
+		}
+	}
+	if n == 0 {
+		return ""
+	}
+	return "holds for this result at every return of " + g.Name() + " that the tested flag allows"
 }
 
 // edgeInfeasible: the proof runs under the assumption that some phi (an
@@ -1245,6 +1368,21 @@ func (lg *ledger) boundFacts(b *ssa.BasicBlock) (out []diffC) {
 				}
 				if okInd && c0 != nil {
 					out = append(out, diffC{"0", lg.key(x), -*c0}) // 0 - phi <= -c0
+				}
+			case *ssa.Index:
+				if arr, isArr := x.X.Type().Underlying().(*types.Array); isArr {
+					k := "len(" + lg.key(x.X) + ")"
+					out = append(out, diffC{k, "0", arr.Len()}, diffC{"0", k, -arr.Len()})
+				}
+			case *ssa.IndexAddr:
+				// indexing an array (or pointer to one): its length is the type's constant
+				t := x.X.Type().Underlying()
+				if pt, isPtr := t.(*types.Pointer); isPtr {
+					t = pt.Elem().Underlying()
+				}
+				if arr, isArr := t.(*types.Array); isArr {
+					k := "len(" + lg.key(x.X) + ")"
+					out = append(out, diffC{k, "0", arr.Len()}, diffC{"0", k, -arr.Len()})
 				}
 			case *ssa.MakeSlice:
 				// len(make([]T, n)) == n
